@@ -119,7 +119,7 @@ pub fn start_world(scen: &'static Scenario, ctx: &mut Ctx) -> Option<World> {
     for a in &scen.prefix {
         // scripted prefixes must be executable: a typo is a machinery error, not a verdict
         match a {
-            Action::Settle | Action::Isolate(_) | Action::DropAll => {}
+            Action::Settle | Action::Settle0(_) | Action::Isolate(_) | Action::DropAll => {}
             Action::Ready(i, _) | Action::ReadyAsync(i) => {
                 let ok = w.live(*i as usize - 1).map(|l| l.rn.has_ready()).unwrap_or(false);
                 assert!(ok, "prefix of {}: {:?} but node has no Ready", scen.name, a);
